@@ -23,6 +23,13 @@ int vd_lex_nphones(const char *pron);
 void vd_base_word(const char *word, char *out, size_t n); /* strips a trailing "(digits)" */
 int vd_is_filler_word(const char *w);                     /* <sil>, <s>, </s>, [NOISE], ... by spelling */
 
+/* ---------- model tables ---------- */
+struct bin_mdef_s;
+/* the model's phone for (base, left, right, word position): own search of the phone table with the documented
+ * back-off (other word positions; silence for filler or word-boundary contexts; base phone).  Independent of
+ * cd_tree, dict2pid and bin_mdef_phone_id. */
+int vd_triphone(struct bin_mdef_s *m, int lang, int b, int l, int r, int pos);
+
 /* ---------- audio ---------- */
 typedef struct vd_audio { int16_t *s; long n; int samprate; char desc[200]; } vd_audio;
 void vd_init(void);
